@@ -139,7 +139,7 @@ func GenWOpts(t *tape.Tape, sh Shape) WOpts {
 	o.Codec = Codecs[t.Weighted(4, 3, 2, 2, 1, 1)]
 	o.DictMaxBytes = []int64{0, 1, 64, 256, 2048}[t.Weighted(5, 1, 2, 2, 2)]
 	o.NoStats = t.Chance(1, 5)
-	o.IndexSizeLimit = []int{0, 1, 4, 64}[t.Weighted(4, 1, 1, 1)]
+	o.IndexSizeLimit = []int{0, 1, 2, 4, 64}[t.Weighted(4, 1, 1, 1, 1)]
 	if t.Chance(1, 2) {
 		for _, k := range kindNames {
 			if t.Chance(1, 2) {
